@@ -9,10 +9,11 @@
   (1) `constant_value` — NO side condition: in every run-time state that inhabits the type state, an
       expression with a constant evaluates to exactly that constant and leaves the state alone.
   (2) That `Conforms` (in particular "recorded constants are right") is preserved by evaluation is
-      part of C01's induction (`C01.sound_partial`); it needs the side conditions: the unchanged code
-      records constants that are wrong after `del(x…)` (`D_del_typing`), after a half-executed
-      operand (`D_err_partial_effects`), and `Details::merge` keeps `0.0` for `-0.0`
-      (`D_const_signed_zero`): VrlProofs/Witness/C12.lean.
+      part of C01's induction (`C01.sound_partial`); it needs the side conditions: the code records
+      constants that are wrong after a half-executed operand (`D_err_partial_effects`), and
+      `Details::merge` keeps `0.0` for `-0.0` (`D_const_signed_zero`): VrlProofs/Witness/C12.lean.
+      A constant that survived `del(x…)` (`D_const_after_del`) is repaired (6af54e3: `DelFn::type_info`
+      re-inserts the variable without a constant; `Lang.delVarUpdate`, `C12.W.fixed_const_after_del`).
   (3) The decisions taken from constants are valid: `divisor_constant_sound` (the divisor of a `/`
       typed infallible is the non-zero constant), `or_and_constant_sound` (a boolean constant lhs).
 -/
